@@ -53,6 +53,16 @@ void anomaly(int what, long long a, long long b) { log(90, {what, a, b}); }
   _exit(0);
 }
 
+// the script makes the kernel do something impossible (the model says Stuck <code>): end of this case
+[[noreturn]] static void stuck(int code)
+{
+  S.active = false;
+  log(99, {2, code, static_cast<long long>(S.script.size())});
+  fwrite(S.trace.data(), 1, S.trace.size(), stdout);
+  fflush(stdout);
+  _exit(0);
+}
+
 static Ev pop(int code)
 {
   if(S.script.empty() || S.script.front().code != code) underrun(code);
@@ -67,10 +77,11 @@ static bool isv(int fd) { return S.active && fd >= VFD_BASE; }
 // set-up call: logs, returns 0 or errno from the fault overlay
 static int setup(int which, int fd)
 {
-  log(8, {which, fd});
   auto idx = S.nsys++;
   auto it = S.faults.find(idx);
-  return it == S.faults.end() ? 0 : static_cast<int>(it->second);
+  int err = it == S.faults.end() ? 0 : static_cast<int>(it->second);
+  log(8, {which, fd, err});
+  return err;
 }
 
 static void fill_addr(sockaddr *addr, socklen_t *len, int port)
@@ -121,6 +132,7 @@ int poll(struct pollfd *fds, nfds_t n, int timeout)
   std::vector<long long> a{timeout};
   for(nfds_t i = 0; i < n; ++i) { a.push_back(fds[i].fd); a.push_back(fds[i].events); }
   Ev e = pop(2);
+  a.insert(a.begin() + 1, {arg(e, 0), arg(e, 2)});
   logv(2, a);
   S.now_ns += arg(e, 2);
   for(nfds_t i = 0; i < n; ++i) fds[i].revents = static_cast<short>(arg(e, 3 + i));
@@ -132,9 +144,10 @@ ssize_t send(int fd, const void *buf, size_t len, int flags)
 {
   if(!isv(fd)) return syscall(SYS_sendto, fd, buf, len, flags, nullptr, 0);
   Ev e = pop(3);
-  log(3, {fd, static_cast<long long>(len), flags});
+  log(3, {fd, static_cast<long long>(len), flags, arg(e, 0)});
   if(!check(2ull * fd, S.out_pos[fd], static_cast<char const *>(buf), len)) anomaly(1, fd, static_cast<long long>(S.out_pos[fd]));
   if(arg(e, 0) < 0) { errno = static_cast<int>(arg(e, 1)); return -1; }
+  if(arg(e, 0) > static_cast<long long>(len) && !(arg(e, 0) == 0)) stuck(1);
   S.out_pos[fd] += static_cast<uint64_t>(arg(e, 0));
   return arg(e, 0);
 }
@@ -143,10 +156,10 @@ ssize_t recv(int fd, void *buf, size_t len, int flags)
 {
   if(!isv(fd)) return syscall(SYS_recvfrom, fd, buf, len, flags, nullptr, nullptr);
   Ev e = pop(4);
-  log(4, {fd, static_cast<long long>(len)});
+  log(4, {fd, static_cast<long long>(len), arg(e, 0)});
   if(arg(e, 0) < 0) { errno = static_cast<int>(arg(e, 1)); return -1; }
   size_t r = static_cast<size_t>(arg(e, 0));
-  if(r > len) { anomaly(2, fd, static_cast<long long>(len)); r = len; }
+  if(r > len) stuck(2);
   fill(2ull * fd + 1, S.in_pos[fd], static_cast<char *>(buf), r);
   S.in_pos[fd] += r;
   return arg(e, 0);
@@ -157,7 +170,7 @@ ssize_t sendto(int fd, const void *buf, size_t len, int flags, const struct sock
   if(!isv(fd)) return syscall(SYS_sendto, fd, buf, len, flags, addr, alen);
   Ev e = pop(5);
   int port = port_of(addr, alen);
-  log(5, {fd, static_cast<long long>(len), port - PORT_BASE_SYM});
+  log(5, {fd, static_cast<long long>(len), port - PORT_BASE_SYM, arg(e, 0)});
   uint64_t k = S.dgram_out[fd]++;
   if(!check((1ull << 20) + fd, (k << 20), static_cast<char const *>(buf), len)) anomaly(3, fd, static_cast<long long>(k));
   if(flags != 0) anomaly(4, fd, flags);
@@ -169,10 +182,10 @@ ssize_t recvfrom(int fd, void *buf, size_t len, int flags, struct sockaddr *addr
 {
   if(!isv(fd)) return syscall(SYS_recvfrom, fd, buf, len, flags, addr, alen);
   Ev e = pop(6);
-  log(6, {fd, static_cast<long long>(len)});
+  log(6, {fd, static_cast<long long>(len), arg(e, 0)});
   if(arg(e, 0) < 0) { errno = static_cast<int>(arg(e, 1)); return -1; }
   size_t r = static_cast<size_t>(arg(e, 0));
-  if(r > len) { anomaly(2, fd, static_cast<long long>(len)); r = len; }
+  if(r > len) stuck(3);
   uint64_t k = S.dgram_in[fd]++;
   fill((2ull << 20) + fd, (k << 20), static_cast<char *>(buf), r);
   fill_addr(addr, alen, PORT_BASE_SYM + static_cast<int>(arg(e, 2)));
@@ -183,7 +196,7 @@ int accept(int fd, struct sockaddr *addr, socklen_t *alen)
 {
   if(!isv(fd)) return static_cast<int>(syscall(SYS_accept, fd, addr, alen));
   Ev e = pop(7);
-  log(7, {fd});
+  log(7, {fd, arg(e, 0) != 0 ? -1 : S.nextfd});
   if(arg(e, 0) != 0) { errno = static_cast<int>(arg(e, 0)); return -1; }
   int nfd = S.nextfd++;
   S.opened[nfd] = 0;
